@@ -92,6 +92,11 @@ func (zp *ZoneParser) generate(l lex) (RR, bool) {
 	zp.sub.includeDepth, zp.sub.includeAllowed = zp.includeDepth, zp.includeAllowed
 	zp.sub.generateDisallowed = true
 	zp.sub.SetDefaultTTL(defaultTtl)
+	if zp.defttl != nil {
+		// A generated record without a TTL gets what an ordinary record at this
+		// place would get: the $TTL, the last stated TTL or the configured default.
+		zp.sub.defttl = zp.defttl
+	}
 	return zp.subNext()
 }
 
